@@ -3,6 +3,8 @@ import CryoCat.Lemmas.C08_DropDup
 import CryoCat.Lemmas.C08_Objects
 import CryoCat.Lemmas.C08_Merge
 import CryoCat.Lemmas.C08_History
+import CryoCat.Lemmas.C08_Order
+import CryoCat.Lemmas.C08_CheckHistory
 /-! C08 — particle-list set algebra and identifier discipline: property theorems about the
 executable model `Model/C08.lean` (the definitions the driver runs). Only theorems and
 non-vacuity examples; helper lemmas live in `Lemmas/C08*.lean`. -/
@@ -20,16 +22,30 @@ theorem columns_documented : motlColumnNames = Field.all.map Field.name := by de
 /-- `check_df_correct_format` accepts exactly the permutations of the 20 names -/
 theorem format_check_is_permutation : formatIsPermCheck = true := by decide
 
-/-- `get_motl_subset`: `self.df[feature_id] == i` for `i` in the value list made 1-d -/
-theorem subset_operator : subsetCmp = Cmp.eq ∧ subsetValues = "np.atleast_1d(np.asarray(feature_values))"
-    ∧ subsetConcat = "[new_df,df_i]" := by decide
+/-- `get_motl_subset`: `self.df[feature_id] == i` for `i` in the requested values made 1-d by
+`np.atleast_1d(np.asarray(·))`; the parts are APPENDED to an initially empty table
+(`concat([acc, part])`), mask and selection use the same frame, `reset_index(drop=True)`.
+Structural (ast shapes; local variable names are free): a renamed variable keeps this theorem, a
+reordered `concat` (`.prepend`) or a different normalisation (`.wrapInList`, the D20 defect) breaks it. -/
+theorem subset_operator : subsetCmp = Cmp.eq
+    ∧ subsetLoop = { iter := .requested, norm := .atleast1d, acc := .append, reset := .dropTrue, sameFrame := true } := by
+  decide
 
 /-- `remove_feature`: `self.df[feature_id] != value` -/
 theorem remove_operator : removeCmp = Cmp.ne := by decide
 
-/-- `split_by_feature`: `== value` for value in `Series.unique()` -/
-theorem split_operator : splitCmp = Cmp.eq ∧ splitUniq = "self.get_unique_values(feature_id)"
-    ∧ uniqImpl = "self.df.loc[:,feature_id].unique()" := by decide
+/-- `remove_feature`: a scalar is wrapped into a list, then `self.df` is NARROWED value after value
+(`self.df = self.df.loc[self.df[f] != value]`, mask / selection / target are the same frame) -/
+theorem remove_loop_documented :
+    removeLoop = { iter := .requested, norm := .listOrArrayElseWrap, acc := .narrow, reset := .absent, sameFrame := true } := by
+  decide
+
+/-- `split_by_feature`: `== value` for value in the column's `Series.unique()` (resolved through the
+helper method's return: order of first appearance), each part appended to an initially empty list
+which is returned -/
+theorem split_operator : splitCmp = Cmp.eq
+    ∧ splitLoop = { iter := .uniqueFirst, norm := .none, acc := .append, reset := .absent, sameFrame := true } := by
+  decide
 
 /-- `get_motl_intersection`: rows of the first list selected by `isin` of the second's ids -/
 theorem intersection_operator : intersectKeepsFirstByIsin = true
@@ -53,9 +69,16 @@ theorem merge_documented :
 theorem renumber_particles_documented : renumberParticlesFirst = 1
     ∧ renumberParticlesAssign = "self.df.loc[:,'subtomo_id']=list(range(1,len(self.df)+1))" := by decide
 
-/-- `renumber_objects_sequentially`: per tomogram, factorize + running start, default start 1 -/
-theorem renumber_objects_documented : renumberObjectsDefaultStart = 1 ∧ renumberObjectsGroupKey = "tomo_id"
-    ∧ renumberObjectsAssign = "group['object_id']=group['object_id'].factorize()[0]+start_number;start_number=group['object_id'].max()+1" := by decide
+/-- `renumber_objects_sequentially`: default start 1; the frame is re-indexed (`reset_index(drop=True)`),
+grouped by `tomo_id` in ascending key order, every group gets `factorize()[0] + start` (first
+appearance), the running start becomes `max + 1`, groups are written back and the frame is stored -/
+theorem renumber_objects_documented : renumberObjectsDefaultStart = 1
+    ∧ objLoop = { groupKey := "tomo_id", groupOrder := .uniqueSorted, codes := .factorizeFirst, startUpdate := some 1,
+                  reset := .dropTrue, writesBack := true } := by decide
+
+theorem objKeysCfg_eq {α : Type} [BEq α] [LT α] [DecidableLT α] (l : Motl α) : objKeysCfg l = objKeys l := by
+  unfold objKeysCfg
+  rw [renumber_objects_documented.2]
 
 theorem dd_default_fields : ddDefaultDup = Field.subtomo_id ∧ ddDefaultDec = Field.score := by decide
 
@@ -68,9 +91,9 @@ variable {α : Type} [DecidableEq α] [LT α] [DecidableLT α]
 order requested, a value requested twice gives its rows twice), original order inside a group. -/
 theorem subset_spec (f : Field) (vs : List α) (l : Motl α) :
     subset f vs l = vs.flatMap (fun v => l.filter (fun p => decide (p.get f = v))) := by
-  unfold subset
-  rw [subset_operator.1]
-  rfl
+  unfold subset runLoop
+  rw [subset_operator.1, subset_operator.2]
+  exact foldl_append_flatMap _ vs []
 
 theorem mem_subset (f : Field) (vs : List α) (l : Motl α) (p : Particle α) :
     p ∈ subset f vs l ↔ p ∈ l ∧ p.get f ∈ vs := by
@@ -99,7 +122,9 @@ theorem subset_perm (f : Field) (vs : List α) (l : Motl α) (hvs : vs.Nodup) :
 /-- **Removal** keeps exactly the rows whose value is none of the given ones, in order. -/
 theorem remove_spec (f : Field) (vs : List α) (l : Motl α) :
     remove f vs l = l.filter (fun p => decide (p.get f ∉ vs)) := by
-  unfold remove
+  unfold remove runLoop
+  rw [remove_loop_documented]
+  show vs.foldl (fun acc v => acc.filter (fun p => removeCmp.test (p.get f) v)) l = _
   rw [remove_fold, remove_operator]
   apply List.filter_congr
   intro p _
@@ -131,8 +156,8 @@ theorem remove_subset_disjoint (f : Field) (vs : List α) (l : Motl α) (p : Par
 with that value in original order. -/
 theorem split_spec (f : Field) (l : Motl α) :
     split f l = (uniq (l.map (·.get f))).map (fun v => l.filter (fun p => decide (p.get f = v))) := by
-  unfold split
-  rw [split_operator.1]
+  unfold split iterValues
+  rw [split_operator.1, split_operator.2]
   rfl
 
 /-- **Splitting partitions the list**: the parts together are a rearrangement of the list … -/
@@ -333,13 +358,14 @@ theorem renumberObjects_spec (nat : Nat → α) (start : α) (l : Motl α)
   refine ⟨rfl, ?_, ?_, ?_, objKeys_nodup l, mem_objKeys l⟩
   · intro p hp q hq
     unfold newObjId
+    rw [objKeysCfg_eq]
     constructor
     · intro h; exact (keyIdx_eq_iff l p q hp hq).1 (hinj _ _ h)
     · intro h; rw [(keyIdx_eq_iff l p q hp hq).2 h]
-  · intro p hp; exact ⟨_, keyIdx_lt l p hp, rfl⟩
+  · intro p hp; exact ⟨_, keyIdx_lt l p hp, by unfold newObjId; rw [objKeysCfg_eq]⟩
   · intro i hi
     obtain ⟨p, hp, e⟩ := keyIdx_surj l i hi
-    exact ⟨p, hp, by unfold newObjId; rw [e]⟩
+    exact ⟨p, hp, by unfold newObjId; rw [objKeysCfg_eq, e]⟩
 
 /-- numbers are handed out tomogram by tomogram in ascending order, so the objects of one tomogram
 receive one block of consecutive numbers -/
@@ -472,6 +498,316 @@ theorem selection_history_rows (fill : α → α) (nat : Nat → α) (ops : List
 
 end history
 
+/-! ### order statements (not only rearrangements) -/
+section order
+set_option linter.unusedSectionVars false
+variable {α : Type} [DecidableEq α] [LT α] [DecidableLT α]
+
+/-- **Split, order.** The parts of a split, concatenated in the order they are returned, ARE the
+stable sort of the list by first-appearance rank of the field value: parts come in order of first
+appearance and inside a part the rows keep their original order. -/
+theorem split_flatten_eq_stable_sort (f : Field) (l : Motl α) :
+    (split f l).flatten = l.mergeSort (rankLe (fun p => p.get f) (firstRank f l)) := by
+  rw [split_spec, ← List.flatMap_def]
+  exact flatMap_filter_eq_mergeSort _ _ _ (nodup_pairwise_idxOf _ (uniq_nodup _)) l
+    (by intro p hp; exact (uniq_mem _ _).2 (List.mem_map.2 ⟨p, hp, rfl⟩))
+
+/-- **Subset, order.** For pairwise different requested values the subset IS the stable sort of the
+matching rows by the position of their value in the request. -/
+theorem subset_eq_stable_sort (f : Field) (vs : List α) (l : Motl α) (hvs : vs.Nodup) :
+    subset f vs l
+      = (l.filter (fun p => decide (p.get f ∈ vs))).mergeSort (rankLe (fun p => p.get f) (fun v => vs.idxOf v)) := by
+  rw [subset_spec]
+  rw [← flatMap_filter_eq_mergeSort (fun p : Particle α => p.get f) (fun v => vs.idxOf v) vs
+    (nodup_pairwise_idxOf vs hvs) (l.filter (fun p => decide (p.get f ∈ vs)))
+    (by intro p hp; simpa using (List.mem_filter.1 hp).2)]
+  apply flatMap_congr'
+  intro v hv
+  rw [List.filter_filter]
+  apply List.filter_congr
+  intro p _
+  by_cases h1 : p.get f = v
+  · subst h1; simp [hv]
+  · simp [h1]
+
+end order
+
+/-! ### the verified checkers (`Model/C08_Check.lean`): the harness sends the REAL output of every
+operation; a `spec` finding is reported exactly when the checker rejects. Soundness = an accepted
+output satisfies the clauses of the statement (stated as Props over input and output, not as
+"equals the model's output"); completeness = every output satisfying them is accepted.
+`eqv` is the cell comparison (`heqv`: it is equality). -/
+section checkers
+set_option linter.unusedSectionVars false
+variable {α : Type} [CommRing α] [LinearOrder α] [IsStrictOrderedRing α]
+  (eqv : α → α → Bool) (heqv : ∀ a b, eqv a b = true ↔ a = b)
+include heqv
+
+omit heqv in
+/-- "the table still has exactly the 20 fields": accepted iff the column names are a rearrangement
+of the 20 names the source declares today -/
+theorem check_schema_iff (cols : List String) : checkSchema cols = true ↔ cols.Perm motlColumnNames := by
+  unfold checkSchema
+  rw [columns_documented]
+  exact List.isPerm_iff
+
+theorem check_subset_sound (f : Field) (vs : List α) (l out : Motl α) (h : checkSubset eqv f vs l out = true) :
+    SubsetOK f vs l out ∧ (∀ p, p ∈ out ↔ p ∈ l ∧ p.get f ∈ vs) := by
+  have h1 := (checkSubset_iff eqv heqv f vs l out).1 h
+  refine ⟨h1, fun p => ?_⟩
+  rw [(subsetOK_iff eqv heqv f vs l out).1 h1, ← subset_spec]
+  exact mem_subset f vs l p
+
+theorem check_subset_complete (f : Field) (vs : List α) (l out : Motl α) (h : SubsetOK f vs l out) :
+    checkSubset eqv f vs l out = true := (checkSubset_iff eqv heqv f vs l out).2 h
+
+/-- the model's output is accepted (so the clause is satisfiable and agrees with `subset_spec`) -/
+theorem check_subset_accepts_model (f : Field) (vs : List α) (l : Motl α) :
+    checkSubset eqv f vs l (subset f vs l) = true :=
+  (checkSubset_iff eqv heqv f vs l _).2 ((subsetOK_iff eqv heqv f vs l _).2 (subset_spec f vs l))
+
+theorem check_remove_sound (f : Field) (vs : List α) (l out : Motl α) (h : checkRemove eqv f vs l out = true) :
+    RemoveOK f vs l out := (checkRemove_iff eqv heqv f vs l out).1 h
+
+theorem check_remove_complete (f : Field) (vs : List α) (l out : Motl α) (h : RemoveOK f vs l out) :
+    checkRemove eqv f vs l out = true := (checkRemove_iff eqv heqv f vs l out).2 h
+
+theorem check_remove_accepts_model (f : Field) (vs : List α) (l : Motl α) :
+    checkRemove eqv f vs l (remove f vs l) = true := by
+  apply check_remove_complete eqv heqv
+  rw [remove_spec]
+  refine ⟨?_, fun p hp => by simpa using (List.mem_filter.1 hp).2⟩
+  have := List.filter_append_perm (fun p : Particle α => decide (p.get f ∈ vs)) l
+  refine List.Perm.trans List.perm_append_comm ?_
+  simpa using this
+
+theorem check_split_sound (f : Field) (l : Motl α) (parts : List (Motl α)) (h : checkSplit eqv f l parts = true) :
+    SplitOK f l parts := (checkSplit_iff eqv heqv f l parts).1 h
+
+theorem check_split_complete (f : Field) (l : Motl α) (parts : List (Motl α)) (h : SplitOK f l parts) :
+    checkSplit eqv f l parts = true := (checkSplit_iff eqv heqv f l parts).2 h
+
+theorem check_split_accepts_model (f : Field) (l : Motl α) : checkSplit eqv f l (split f l) = true := by
+  apply check_split_complete eqv heqv
+  refine ⟨split_partition f l, ?_, split_disjoint f l⟩
+  intro part hpart
+  refine ⟨split_parts_nonempty f l part hpart, ?_⟩
+  rw [split_spec] at hpart
+  obtain ⟨v, _, rfl⟩ := List.mem_map.1 hpart
+  exact ⟨v, fun p hp => by simpa using (List.mem_filter.1 hp).2⟩
+
+theorem check_intersect_sound (fill : α → α) (f : Field) (l o out : Motl α)
+    (h : checkIntersect eqv fill f l o out = true) : IntersectOK fill f l o out :=
+  (checkIntersect_iff eqv heqv fill f l o out).1 h
+
+theorem check_intersect_complete (fill : α → α) (f : Field) (l o out : Motl α)
+    (h : IntersectOK fill f l o out) : checkIntersect eqv fill f l o out = true :=
+  (checkIntersect_iff eqv heqv fill f l o out).2 h
+
+theorem check_intersect_accepts_model (fill : α → α) (hfill : ∀ v, fill (fill v) = fill v) (f : Field) (l o : Motl α) :
+    checkIntersect eqv fill f l o (intersect fill f l o) = true := by
+  apply check_intersect_complete eqv heqv
+  rw [intersect_spec]
+  constructor
+  · rw [List.map_map]
+    apply List.Perm.of_eq
+    apply List.map_congr_left
+    intro p _
+    apply Particle.ext_get
+    intro g
+    simp only [Function.comp, get_fillRow, hfill]
+  · intro q hq
+    obtain ⟨p, hp, rfl⟩ := List.mem_map.1 hq
+    exact ⟨p, (List.mem_filter.1 hp).1, fun g => Or.inr (get_fillRow fill p g)⟩
+
+/-- **drop_duplicates, checked**: accepted ⇒ ids pairwise different, every output row is an input
+row, every id survives, the survivor is a best-scoring row of its id -/
+theorem check_dropdup_sound (dup dec : Field) (asc : Bool) (l out : Motl α)
+    (h : checkDropDup eqv (fun v => v) dup dec asc l out = true) :
+    (out.map (·.get dup)).Nodup ∧ (∀ q ∈ out, q ∈ l) ∧ (∀ p ∈ l, ∃ q ∈ out, q.get dup = p.get dup)
+    ∧ (∀ q ∈ out, ∀ p ∈ l, p.get dup = q.get dup → if asc then q.get dec ≤ p.get dec else p.get dec ≤ q.get dec) := by
+  obtain ⟨h1, h2, h3, h4⟩ := (checkDropDup_iff eqv heqv _ dup dec asc l out).1 h
+  refine ⟨h1, ?_, h3, h4⟩
+  intro q hq
+  obtain ⟨p, hp, hs⟩ := h2 q hq
+  have : q = p := Particle.ext_get (fun g => (hs g).elim id id)
+  exact this ▸ hp
+
+theorem check_dropdup_complete (fill : α → α) (dup dec : Field) (asc : Bool) (l out : Motl α)
+    (h : DropDupOK fill dup dec asc l out) : checkDropDup eqv fill dup dec asc l out = true :=
+  (checkDropDup_iff eqv heqv fill dup dec asc l out).2 h
+
+theorem check_dropdup_accepts_model (dup dec : Field) (asc : Bool) (l : Motl α) :
+    checkDropDup eqv (fun v => v) dup dec asc l (dropDup dup dec asc l) = true := by
+  apply check_dropdup_complete eqv heqv
+  obtain ⟨h1, h2, h3, h4⟩ := dropDup_spec dup dec asc l
+  exact ⟨h1, fun q hq => ⟨q, h2 q hq, fun g => Or.inl rfl⟩, h3, h4⟩
+
+theorem check_merge_renumber_sound (fill : α → α) (nat : Nat → α) (ins : List (Motl α)) (out : Motl α)
+    (h : checkMergeRenumber eqv fill nat ins out = true) : MergeRenumberOK fill nat ins out :=
+  (checkMergeRenumber_iff eqv heqv fill nat ins out).1 h
+
+theorem check_merge_renumber_complete (fill : α → α) (nat : Nat → α) (ins : List (Motl α)) (out : Motl α)
+    (h : MergeRenumberOK fill nat ins out) : checkMergeRenumber eqv fill nat ins out = true :=
+  (checkMergeRenumber_iff eqv heqv fill nat ins out).2 h
+
+omit heqv in
+/-- one offset per block keeps the grouping inside the block (equal stays equal, different stays different) -/
+theorem blockOK_grouping (fill : α → α) (m b : Motl α) (h : BlockOK fill m b) :
+    ∀ x ∈ m.zip b, ∀ y ∈ m.zip b, x.2.object_id = y.2.object_id ↔ x.1.object_id = y.1.object_id := by
+  obtain ⟨-, c, hc⟩ := h
+  have hz : ∀ x ∈ m.zip b, x.2.object_id = x.1.object_id + c := by
+    induction hc with
+    | nil => intro x hx; simp at hx
+    | cons e _ ih =>
+      intro x hx
+      rw [List.zip_cons_cons] at hx
+      rcases List.mem_cons.1 hx with rfl | hx'
+      · exact e
+      · exact ih x hx'
+  intro x hx y hy
+  rw [hz x hx, hz y hy]
+  exact add_left_inj c
+
+/-- with an offset certificate `cs` (one object-number offset per input) -/
+theorem check_merge_dropdup_sound (fill : α → α) (cs : List α) (ins : List (Motl α)) (out : Motl α)
+    (h : checkMergeDropDup eqv fill cs ins out = true) : MergeDropDupOK fill ins out :=
+  (checkMergeDropDup_iff eqv heqv fill ins out).1 ⟨cs, h⟩
+
+theorem check_merge_dropdup_complete (fill : α → α) (ins : List (Motl α)) (out : Motl α)
+    (h : MergeDropDupOK fill ins out) : ∃ cs, checkMergeDropDup eqv fill cs ins out = true :=
+  (checkMergeDropDup_iff eqv heqv fill ins out).2 h
+
+theorem check_renumber_particles_sound (nat : Nat → α) (l out : Motl α)
+    (h : checkRenumberParticles eqv nat l out = true) : RenumberParticlesOK nat l out :=
+  (checkRenumberParticles_iff eqv heqv nat l out).1 h
+
+theorem check_renumber_particles_complete (nat : Nat → α) (l out : Motl α)
+    (h : RenumberParticlesOK nat l out) : checkRenumberParticles eqv nat l out = true :=
+  (checkRenumberParticles_iff eqv heqv nat l out).2 h
+
+theorem check_renumber_particles_accepts_model (nat : Nat → α) (l : Motl α) :
+    checkRenumberParticles eqv nat l (renumberParticles nat l) = true :=
+  check_renumber_particles_complete eqv heqv nat l _ (renumberParticles_spec nat l)
+
+theorem check_renumber_objects_sound (nat : Nat → α) (start : α) (l out : Motl α)
+    (h : checkRenumberObjects eqv nat start l out = true) : RenumberObjectsOK nat start l out :=
+  (checkRenumberObjects_iff eqv heqv nat start l out).1 h
+
+theorem check_renumber_objects_complete (nat : Nat → α) (start : α) (l out : Motl α)
+    (h : RenumberObjectsOK nat start l out) : checkRenumberObjects eqv nat start l out = true :=
+  (checkRenumberObjects_iff eqv heqv nat start l out).2 h
+
+/-- the model's renumbering is accepted (`hinj`: `start + i` are different numbers for different `i`) -/
+theorem check_renumber_objects_accepts_model (nat : Nat → α) (start : α) (l : Motl α)
+    (hinj : ∀ i j : Nat, start + nat i = start + nat j → i = j) :
+    checkRenumberObjects eqv nat start l (renumberObjects nat start l) = true := by
+  apply check_renumber_objects_complete eqv heqv
+  obtain ⟨_, h2, h3, h4, h5, h6⟩ := renumberObjects_spec nat start l hinj
+  have hz : ∀ a ∈ l.zip (renumberObjects nat start l), a.1 ∈ l ∧ a.2.object_id = newObjId nat start l a.1 := by
+    intro a ha
+    obtain ⟨h1, e⟩ := mem_zip_map_self _ l a ha
+    exact ⟨h1, by rw [e]; exact Particle.get_set_same _ Field.object_id _⟩
+  refine ⟨renumberObjects_others nat start l, ?_, objKeys l, h5, ?_, ?_, ?_⟩
+  · intro a ha b hb
+    rw [(hz a ha).2, (hz b hb).2]
+    exact h2 _ (hz a ha).1 _ (hz b hb).1
+  · intro k
+    obtain ⟨t, o⟩ := k
+    rw [h6]
+    constructor
+    · rintro ⟨p, hp, rfl, rfl⟩; exact ⟨p, hp, rfl⟩
+    · rintro ⟨p, hp, e⟩; exact ⟨p, hp, (Prod.mk.inj e).1, (Prod.mk.inj e).2⟩
+  · intro q hq
+    obtain ⟨p, hp, rfl⟩ := List.mem_map.1 hq
+    obtain ⟨i, hi, e⟩ := h3 p hp
+    exact ⟨i, hi, by rw [← e]; exact Particle.get_set_same _ Field.object_id _⟩
+  · intro i hi
+    obtain ⟨p, hp, e⟩ := h4 i hi
+    exact ⟨_, List.mem_map.2 ⟨p, hp, rfl⟩, by rw [← e]; exact Particle.get_set_same _ Field.object_id _⟩
+/-- **one accepted step** establishes the clauses of its operation for the REAL tables … -/
+theorem check_step_sound (fill : α → α) (nat : Nat → α) (op : Op α) (l : Motl α) (o : Obs α)
+    (h : checkStep eqv fill nat op l o = true) : StepOK fill nat op l o :=
+  checkStep_sound eqv heqv fill nat op l o h
+
+/-- … and **an accepted observed history** (every step judged against the REAL previous table)
+establishes the history clause for the REAL last table: each of its rows is a row that entered the
+history — of the initial list or of a list merged / intersected in — and no field other than
+`subtomo_id` / `object_id` has changed (a missing value possibly filled by `Motl.load`). -/
+theorem check_history_rows (fill : α → α) (nat : Nat → α) (hfill : ∀ v, fill (fill v) = fill v)
+    (steps : List (Op α × Obs α)) (l : Motl α) (h : checkRun eqv fill nat steps l = true) :
+    ∀ q ∈ lastOut steps l, ∃ p ∈ l ++ steps.flatMap (fun s => s.1.sources), Unchanged fill p q :=
+  checkRun_rows eqv heqv fill nat hfill steps l h
+
+end checkers
+
+/-! ### identifiers stay duplicate-free after merging with renumbering -/
+section nodup
+set_option linter.unusedSectionVars false
+variable {α : Type} [CommRing α] [LinearOrder α] [IsStrictOrderedRing α]
+
+/-- a selection (`subset` with pairwise different values, `remove`, a split part, `drop_duplicates`)
+keeps any duplicate-free column duplicate-free -/
+theorem selection_step_keeps_nodup (fill : α → α) (nat : Nat → α) (g : Field) (op : Op α)
+    (hop : op.isNodupSelection) (l : Motl α) (hl : (l.map (·.get g)).Nodup) :
+    ((step fill nat op l).map (·.get g)).Nodup := by
+  cases op with
+  | subset f vs =>
+    have hp := (subset_perm f vs l hop).map (·.get g)
+    exact hp.nodup_iff.2 (hl.sublist (List.filter_sublist.map _))
+  | remove f vs =>
+    simp only [step]; rw [remove_spec]
+    exact hl.sublist (List.filter_sublist.map _)
+  | splitPick f i =>
+    simp only [step, split_spec]
+    rw [List.getD_eq_getElem?_getD]
+    cases h : ((uniq (l.map (·.get f))).map (fun v => l.filter (fun p => decide (p.get f = v))))[i]? with
+    | none => simp
+    | some part =>
+      obtain ⟨v, _, rfl⟩ := List.mem_map.1 (List.mem_of_getElem? h)
+      exact hl.sublist (List.filter_sublist.map _)
+  | dropDup dup dec asc =>
+    simp only [step, dropDup]
+    have hperm := (List.mergeSort_perm l (ddLe dup dec asc)).map (·.get g)
+    exact (hperm.nodup_iff.2 hl).sublist ((firstPer_sublist dup _).map _)
+  | intersect f o => exact absurd hop (by simp [Op.isNodupSelection])
+  | mergeRenumber b a s => exact absurd hop (by simp [Op.isNodupSelection])
+  | mergeDropDup b a s => exact absurd hop (by simp [Op.isNodupSelection])
+  | renumberParticles => exact absurd hop (by simp [Op.isNodupSelection])
+  | renumberObjects start => exact absurd hop (by simp [Op.isNodupSelection])
+
+theorem selection_history_keeps_nodup (fill : α → α) (nat : Nat → α) (g : Field) (ops : List (Op α))
+    (hsel : ∀ op ∈ ops, op.isNodupSelection) (l : Motl α) (hl : (l.map (·.get g)).Nodup) :
+    ((run fill nat ops l).map (·.get g)).Nodup := by
+  induction ops generalizing l with
+  | nil => simpa [run] using hl
+  | cons op ops ih =>
+    have := ih (fun o ho => hsel o (List.mem_cons_of_mem _ ho)) (step fill nat op l)
+      (selection_step_keeps_nodup fill nat g op (hsel op (by simp)) l hl)
+    simpa [run] using this
+
+/-- **Subtomogram numbers after `merge_and_renumber` followed by ANY sequence of selections stay
+pairwise different** (`hnat`: different naturals are different numbers). -/
+theorem mergeRenumber_then_selections_nodup (fill : α → α) (nat : Nat → α) (hnat : ∀ i j, nat i = nat j → i = j)
+    (ls : List (Motl α)) (ops : List (Op α)) (hsel : ∀ op ∈ ops, op.isNodupSelection) :
+    ((run fill nat ops (mergeRenumber nat ls)).map (·.subtomo_id)).Nodup := by
+  apply selection_history_keeps_nodup fill nat Field.subtomo_id ops hsel
+  show ((mergeRenumber nat ls).map (·.subtomo_id)).Nodup
+  rw [mergeRenumber_ids]
+  rw [List.Nodup, List.pairwise_map]
+  exact (List.nodup_range).imp (fun {i j} hij e => hij (by have := hnat _ _ e; omega))
+
+/-- the schema clause as a type fact: whatever the history, a row of the result has exactly the 20
+named cells, in the documented order of names -/
+theorem history_schema (fill : α → α) (nat : Nat → α) (ops : List (Op α)) (l : Motl α) :
+    ∀ q ∈ run fill nat ops l, q.toList.length = 20 ∧ (Field.all.map (fun f => (f.name, q.get f))).map Prod.fst = motlColumnNames := by
+  intro q _
+  refine ⟨by simp [Particle.toList, Field.all_length], ?_⟩
+  rw [List.map_map, columns_documented]
+  rfl
+
+end nodup
+
 /-! ### non-vacuity of the hypotheses used above -/
 example : ([2, 1] : List Int).Nodup := by decide
 example : (subset .tomo_id [2, 1] [Particle.ofFn (fun _ => (1 : Int)), Particle.ofFn (fun _ => 2), Particle.ofFn (fun _ => 3)]).length = 2 := by decide
@@ -485,5 +821,32 @@ example : ∀ p ∈ [Particle.ofFn (fun _ => (2 : Int)), Particle.ofFn (fun _ =>
   intro p hp g
   simp only [List.mem_cons, List.not_mem_nil, or_false] at hp
   rcases hp with rfl | rfl <;> simp [Particle.get_ofFn]
+
+/-- the cell comparison hypothesis `heqv` of the checker theorems is satisfiable -/
+example : ∀ a b : Int, ((fun a b : Int => a == b) a b = true ↔ a = b) := by intro a b; simp
+/-- `hnat` of `mergeRenumber_then_selections_nodup` -/
+example : ∀ i j : Nat, (Int.ofNat i) = Int.ofNat j → i = j := by intro i j h; exact Int.ofNat.inj h
+example : (Op.subset Field.tomo_id [(1 : Int), 2]).isNodupSelection := by simp [Op.isNodupSelection]
+/-- the checkers discriminate: a correct renumbering is accepted, one that starts at 0 is rejected;
+a subset in requested order is accepted, the same rows in the other order are rejected -/
+example : checkRenumberParticles (fun a b : Int => a == b) Int.ofNat
+    [Particle.ofFn (fun _ => (7 : Int)), Particle.ofFn (fun _ => 9)]
+    [(Particle.ofFn (fun _ => (7 : Int))).set .subtomo_id 1, (Particle.ofFn (fun _ => (9 : Int))).set .subtomo_id 2] = true := by decide
+example : checkRenumberParticles (fun a b : Int => a == b) Int.ofNat
+    [Particle.ofFn (fun _ => (7 : Int)), Particle.ofFn (fun _ => 9)]
+    [(Particle.ofFn (fun _ => (7 : Int))).set .subtomo_id 0, (Particle.ofFn (fun _ => (9 : Int))).set .subtomo_id 1] = false := by decide
+example : checkSubset (fun a b : Int => a == b) .tomo_id [2, 1]
+    [Particle.ofFn (fun _ => (1 : Int)), Particle.ofFn (fun _ => 2), Particle.ofFn (fun _ => 3)]
+    [Particle.ofFn (fun _ => (2 : Int)), Particle.ofFn (fun _ => 1)] = true := by decide
+example : checkSubset (fun a b : Int => a == b) .tomo_id [2, 1]
+    [Particle.ofFn (fun _ => (1 : Int)), Particle.ofFn (fun _ => 2), Particle.ofFn (fun _ => 3)]
+    [Particle.ofFn (fun _ => (1 : Int)), Particle.ofFn (fun _ => 2)] = false := by decide
+/-- two inputs whose object numbers overlap: accepted only with non-colliding offsets -/
+example : checkMergeRenumber (fun a b : Int => a == b) (fun v => v) Int.ofNat
+    [[Particle.ofFn (fun _ => (1 : Int))], [Particle.ofFn (fun _ => (1 : Int))]]
+    [(Particle.ofFn (fun _ => (1 : Int))), ((Particle.ofFn (fun _ => (1 : Int))).set .object_id 2).set .subtomo_id 2] = true := by decide
+example : checkMergeRenumber (fun a b : Int => a == b) (fun v => v) Int.ofNat
+    [[Particle.ofFn (fun _ => (1 : Int))], [Particle.ofFn (fun _ => (1 : Int))]]
+    [(Particle.ofFn (fun _ => (1 : Int))), (Particle.ofFn (fun _ => (1 : Int))).set .subtomo_id 2] = false := by decide
 
 end CryoCat.C08
